@@ -580,6 +580,120 @@ fn de_machine(fam: &str, d: &Data, src: &Src, ctx: &mut Ctx) {
     rec(fam, d, &pol, src, &list, &mut seq, bound, ctx);
 }
 
+/// the same next / next_back machine on the typed Polars columns (Datetime in three units, String): the
+/// column is rebuilt and the prefix replayed for every state; items are observed as Option<i64> / Option<String> hashes
+fn typed_columns(word: &[u8], x: &[X], ctx: &mut Ctx) {
+    use polars::prelude::{DatetimeChunked, Int64Chunked, NewChunkedArray, StringChunked, TimeUnit};
+    let fam = "double-ended-typed";
+    let n = x.len();
+    let ints: Vec<Option<i64>> = x.iter().map(|v| v.map(|a| (a as i64) * 1_000_003 - 7)).collect();
+    let strs: Vec<Option<String>> = x.iter().map(|v| v.map(|a| format!("s{a}"))).collect();
+    let want: Vec<Option<i64>> = ints.clone();
+    for ch in mc_adapt::backends::chunkings(n).into_iter().rev().take(3) {
+        let (mut ica, mut sca): (Option<Int64Chunked>, Option<StringChunked>) = (None, None);
+        let mut pos = 0;
+        for &c in &ch {
+            let ip = Int64Chunked::from_slice_options("".into(), &ints[pos..pos + c]);
+            let sp = StringChunked::from_iter_options("".into(), strs[pos..pos + c].iter().cloned());
+            pos += c;
+            ica = Some(match ica {
+                None => ip,
+                Some(mut a) => {
+                    a.append(&ip).unwrap();
+                    a
+                }
+            });
+            sca = Some(match sca {
+                None => sp,
+                Some(mut a) => {
+                    a.append(&sp).unwrap();
+                    a
+                }
+            });
+        }
+        let (ica, sca) = (ica.unwrap(), sca.unwrap());
+        let cols: Vec<(&str, DatetimeChunked)> = vec![
+            ("DatetimeChunked(ns).titer", ica.clone().into_datetime(TimeUnit::Nanoseconds, None)),
+            ("DatetimeChunked(us).titer", ica.clone().into_datetime(TimeUnit::Microseconds, None)),
+            ("DatetimeChunked(ms).titer", ica.clone().into_datetime(TimeUnit::Milliseconds, None)),
+        ];
+        // kind 0..3: datetime units, 3: string
+        for kind in 0..4usize {
+            let name = if kind < 3 { cols[kind].0 } else { "&StringChunked.titer" };
+            let mut seq: Vec<bool> = vec![];
+            // iterative DFS over op sequences up to n + 2
+            let mut stack: Vec<Vec<bool>> = vec![vec![]];
+            while let Some(cur) = stack.pop() {
+                seq.clear();
+                seq.extend(&cur);
+                let obs = catch(|| {
+                    fn run<I: DoubleEndedIterator<Item = Option<i64>>>(mut it: I, seq: &[bool], want: &[Option<i64>]) -> ((usize, Option<usize>), usize, bool) {
+                        let (mut f, mut b) = (0usize, want.len());
+                        let mut ok = true;
+                        for &front in seq {
+                            let got = if front { it.next() } else { it.next_back() };
+                            let w = if f < b {
+                                if front {
+                                    f += 1;
+                                    Some(want[f - 1])
+                                } else {
+                                    b -= 1;
+                                    Some(want[b])
+                                }
+                            } else {
+                                None
+                            };
+                            ok &= got == w;
+                        }
+                        (it.size_hint(), b - f, ok)
+                    }
+                    let opt = |nat: bool, v: i64| if nat { None } else { Some(v) };
+                    match kind {
+                        0 => run(TIter::<DateTime<unit::Nanosecond>>::titer(&&cols[0].1).map(|d| opt(d.is_nat(), d.0)), &seq, &want),
+                        1 => run(TIter::<DateTime<unit::Microsecond>>::titer(&&cols[1].1).map(|d| opt(d.is_nat(), d.0)), &seq, &want),
+                        2 => run(TIter::<DateTime<unit::Millisecond>>::titer(&&cols[2].1).map(|d| opt(d.is_nat(), d.0)), &seq, &want),
+                        _ => {
+                            // strings are mapped back to the integer they were made from
+                            let back = |s: Option<&str>| s.and_then(|s| strs.iter().position(|t| t.as_deref() == Some(s))).and_then(|i| ints[i]);
+                            run((&sca).titer().map(back), &seq, &want)
+                        }
+                    }
+                });
+                ctx.states += 1;
+                ctx.evals += 1;
+                ctx.fam(fam).states += 1;
+                let bad = match &obs {
+                    Outcome::Ok((hint, remaining, ok)) => hint.1 != Some(*remaining) || hint.0 > *remaining || !ok,
+                    Outcome::Panic(_) => true,
+                };
+                ctx.eval(fam, hash_bytes(format!("{obs:?}").as_bytes()));
+                if bad {
+                    let hint_only = matches!(&obs, Outcome::Ok((_, _, true)));
+                    ctx.violation(Violation {
+                        entry: format!("{name}(double-ended)"),
+                        finding: if hint_only { Some("F37".into()) } else { None },
+                        size: n * 100 + seq.len(),
+                        case: json!({"family": fam, "word": word, "series": json_word(x), "chunks": ch, "ops": seq.iter().map(|f| if *f { "next" } else { "next_back" }).collect::<Vec<_>>()}),
+                        expected: "size_hint upper = number of items still to come; items from the two ends".into(),
+                        got: format!("{obs:?} (size_hint, remaining, items_ok)"),
+                    });
+                    continue;
+                }
+                if cur.len() >= n + 2 {
+                    ctx.traces += 1;
+                    continue;
+                }
+                for front in [false, true] {
+                    let mut nx = cur.clone();
+                    nx.push(front);
+                    ctx.transitions += 1;
+                    stack.push(nx);
+                }
+            }
+        }
+    }
+}
+
 fn check_word(word: &[u8], alpha: &[X], max_depth: usize, ctx: &mut Ctx) {
     let x = decode(word, alpha);
     let len = x.len();
@@ -593,6 +707,7 @@ fn check_word(word: &[u8], alpha: &[X], max_depth: usize, ctx: &mut Ctx) {
             de_machine("double-ended", &d, &src, ctx);
         }
     }
+    typed_columns(word, &x, ctx);
     // depth 1: a few sources x every adaptor with its full band
     let base_sources = [Src::Vec, Src::Deque(6), Src::View(-1), Src::VDiff(1, None), Src::VPart(1, false, false), Src::RollIter(2)];
     for src in &base_sources {
